@@ -22,6 +22,9 @@ Theorem queued_commands_telescope : forall (P : program) f c cs w w', exec P (S 
   exists w1 l1 l2, exec P f (IApply c) w = Ok w1 /\ exec P f (IApplyList cs) w1 = Ok w'
                    /\ log w1 = log w ++ l1 /\ log w' = log w ++ l1 ++ l2.
 Proof. exact commands_telescope. Qed.
+Theorem command_list_logs_blocks_in_order : forall (P : program) cs f w w', exec P f (IApplyList cs) w = Ok w' ->
+  exists blocks, length blocks = length cs /\ log w' = log w ++ concat blocks.
+Proof. exact OrderSpec.command_list_logs_blocks_in_order. Qed.
 Theorem runner_commands_run_inline : forall (P : program) f c w t su cl w0, prepare_cmd c w = Some (t, su, cl, w0) ->
   exec P (S f) (IApply c) w = exec P f (IRunner t su cl) w0.
 Proof. exact OrderSpec.runner_commands_run_inline. Qed.
@@ -66,6 +69,7 @@ Proof. eexists. split; [vm_compute; reflexivity|]. vm_compute. reflexivity. Qed.
 
 Print Assumptions log_is_append_only.
 Print Assumptions queued_commands_telescope.
+Print Assumptions command_list_logs_blocks_in_order.
 Print Assumptions runner_commands_run_inline.
 Print Assumptions consequences_run_before_the_next_command.
 Print Assumptions postponed_only_while_the_target_executes.
